@@ -218,11 +218,23 @@ func (r *Raft) onTakeSnapshot(t takeSnapshot) {
 		t.reply(InProgressError("takeSnapshot"))
 		return
 	}
+	// a follower learns that a config is committed from the next config
+	// entry, possibly before its own commitIndex covers it: the snapshot
+	// is labelled with the config in force at commitIndex
+	config := r.configs.Committed
+	if config.Index > r.commitIndex {
+		c, err := r.configAt(r.commitIndex)
+		if err != nil {
+			t.reply(err)
+			return
+		}
+		config = c
+	}
 	r.snapTakenCh = make(chan snapTaken, 1)
 
 	// ask fsm for its state from raft goroutine itself: the request is then
 	// ordered after all apply requests sent so far, so fsm answers with
-	// commitIndex, and configs.Committed is the config in force at that index.
+	// commitIndex, and config is the config in force at that index.
 	req := fsmSnapReq{task: newTask(), index: r.snaps.index + t.threshold}
 	r.fsm.ch <- req
 	go func(config Config) { // tracked by r.snapTakenCh
@@ -236,7 +248,28 @@ func (r *Raft) onTakeSnapshot(t takeSnapshot) {
 			meta: meta,
 			err:  err,
 		}
-	}(r.configs.Committed)
+	}(config)
+}
+
+// configAt returns the config in force at given index: the latest
+// config entry at or below it, otherwise the config of the snapshot
+func (r *Raft) configAt(index uint64) (Config, error) {
+	for i := index; i > r.snaps.index; i-- {
+		e := &entry{}
+		if err := r.storage.getEntry(i, e); err != nil {
+			return Config{}, opError(err, "Log.Get(%d)", i)
+		}
+		if e.typ == entryConfig {
+			config := Config{}
+			err := config.decode(e)
+			return config, err
+		}
+	}
+	meta, err := r.snaps.meta()
+	if err != nil {
+		return Config{}, opError(err, "snapshots.meta")
+	}
+	return meta.config, nil
 }
 
 func doTakeSnapshot(fsm *stateMachine, req fsmSnapReq, config Config) (snapshotMeta, error) {
